@@ -266,3 +266,18 @@ for meth, expect in (('stop_current', 'stop_current'), ('stop_all', 'stop_all'))
     c.setup(_setup)
     c.raises('AttributeError', ('the-stop-was-issued-before-the-page-failed', "len(ghost('acts')) == 1 and ghost('acts')[0] == '%s'" % expect))
     c.ensures('the-stop-was-issued', "len(ghost('acts')) == 1 and ghost('acts')[0] == '%s'" % expect)
+
+
+# ---- "the status ... pages render without error": the text table of the status page takes every value a light can report -
+#      whole numbers and fractional ones (a matrix light staged in raw units keeps them unrounded), zone numbers, power levels
+SN = 'bardolph/controller/snapshot.py'
+for kind in ('int', 'real'):
+    c = contract(SN, 'TextSnapshot.setting', serves=['C20'], name='TextSnapshot.setting[%s value]' % kind)
+    def _setup(b, case, kind=kind):
+        ts = PyObj(b.cls('bardolph.controller.snapshot', 'TextSnapshot'), {'_text': b.sym('str', 'so_far'), '_field_width': 15, '_brief': False})
+        v = b.sym(kind, 'value')
+        b.between(v, 0, 65535)
+        return {'self': ts, '_': None, 'value': v}
+    c.setup(_setup)
+    c.ensures('one-more-field-nothing-raised', "self._text == old(self._text) + str('{:>4.0f}'.format(value)).ljust(15)")
+
